@@ -27,6 +27,8 @@ TRICKY_NAMES = [
     # characters special to printf-style / strftime formatting, glob, shells and option parsers
     "100% final", "take 100%.mov", "%s", "%d%d", "50%%", "reel%d", "%(x)s", "{0}", "{name}", "Reel[A001]", "card[2]", "-v", "--", "-0",
     "my notes.txt", "Camera Reports", "a  b", "tab\u2003wide",
+    # names that look like path syntax: leading double dots, backslashes (an ordinary character on POSIX)
+    "..metadata", "...", "..sync state", "take\\1.bin", "a\\b", "C:\\clip.mov", "back\\",
     # Unicode line / paragraph separators (category Zl / Zp, not control characters)
     "Cam\u2029 A", "a\u2028b", "\u2028",
 ]
